@@ -16,6 +16,7 @@ import (
 type vline struct {
 	text string
 	tag  int
+	obl  *Obligation // set on the line that assumes an obligation's goal after it was registered
 }
 
 // Obligation is one proof obligation of a function.
@@ -35,6 +36,7 @@ type Obligation struct {
 	Result  *SolveResult
 	witness *Clause
 	raw     string // complete query text (lemmas)
+	exclude map[*Obligation]bool // batch members: their own assumption lines are left out
 }
 
 type heapInfo struct {
@@ -59,6 +61,7 @@ type havoc struct {
 	content func(loc string) string // nil: unknown (select sym loc)
 	done    map[string]bool
 	inst    map[string][]int // loc -> tags at which the frame instance was emitted
+	relevant func(loc string) bool // syntactic filter: false = the frame instance at loc is vacuous
 }
 
 // State is the symbolic machine state at a program point.
@@ -67,12 +70,13 @@ type State struct {
 	heaps map[string]*Heap
 	alloc string // Int term: ids >= alloc are unallocated
 	epoch int    // bumped when all memory is havocked
+	dirty string // Bool term: a call with unknown effects happened on the path ("" = false)
 	ghost map[string]Val // results of the latest interface-method calls (callresult())
 	tags  map[string]int // interface term -> dynamic type tag known on every path to here (>0), or -tag: known NOT to be
 }
 
 func (s *State) clone() *State {
-	n := &State{reach: s.reach, alloc: s.alloc, epoch: s.epoch, heaps: make(map[string]*Heap, len(s.heaps))}
+	n := &State{reach: s.reach, alloc: s.alloc, epoch: s.epoch, dirty: s.dirty, heaps: make(map[string]*Heap, len(s.heaps))}
 	for k, v := range s.heaps {
 		n.heaps[k] = v
 	}
@@ -125,10 +129,18 @@ type FnVC struct {
 	implTypes   map[string]types.Type
 	mergedEpochs map[int]*mergedEpoch
 	privEpochs   map[int]*privEpoch
+	epochTag     map[int]int
 	baseCache    map[string]*Heap
+	localRoots   []string // roots of allocations that never escape the function
 	private      string // root term of memory that unknown callees cannot reach
 	ifaceFrameProps []string
 	lazies  []*lazyQuant
+	defMemo map[string][]defEntry
+	assumeMemo map[string][]int
+	inInst  int
+	quiet   int // >0: loads made while evaluating assumed clauses do not instantiate frame axioms
+	akCache map[*ssa.Function]map[string]string
+	tagLines map[int][]int // line indices per tag
 	siteN   int
 	elemLocs map[string]bool
 	skolems []skolem
@@ -147,11 +159,19 @@ func newFnVC(e *Engine, f *ssa.Function, ct *Contract) *FnVC {
 }
 
 func (fv *FnVC) emit(text string) {
-	fv.lines = append(fv.lines, vline{text, fv.curTag})
+	fv.addLine(vline{text: text, tag: fv.curTag})
 }
 
 func (fv *FnVC) emitGlobal(text string) {
-	fv.lines = append(fv.lines, vline{text, -1})
+	fv.addLine(vline{text: text, tag: -1})
+}
+
+func (fv *FnVC) addLine(l vline) {
+	if fv.tagLines == nil {
+		fv.tagLines = map[int][]int{}
+	}
+	fv.tagLines[l.tag] = append(fv.tagLines[l.tag], len(fv.lines))
+	fv.lines = append(fv.lines, l)
 }
 
 func (fv *FnVC) fresh(prefix string) string {
@@ -167,9 +187,24 @@ func (fv *FnVC) def(prefix, srt, term string) string {
 	if len(term) < 48 && !strings.Contains(term, "(ite ") {
 		return term
 	}
+	// common subexpressions: reuse a name defined at a visible point
+	if fv.defMemo == nil {
+		fv.defMemo = map[string][]defEntry{}
+	}
+	for _, d := range fv.defMemo[term] {
+		if d.tag == -1 || d.tag == fv.curTag || (fv.anc[fv.curTag] != nil && fv.anc[fv.curTag][d.tag]) {
+			return d.name
+		}
+	}
 	n := fv.fresh(prefix)
 	fv.emit(fmt.Sprintf("(define-fun %s () %s %s)", n, srt, term))
+	fv.defMemo[term] = append(fv.defMemo[term], defEntry{n, fv.curTag})
 	return n
+}
+
+type defEntry struct {
+	name string
+	tag  int
 }
 
 func (fv *FnVC) defAlways(prefix, srt, term string) string {
@@ -192,7 +227,14 @@ func (fv *FnVC) assume(guard, fact string) {
 	if fact == "true" {
 		return
 	}
-	fv.emit("(assert " + implies(guard, fact) + ")")
+	text := "(assert " + implies(guard, fact) + ")"
+	if fv.assumeMemo == nil {
+		fv.assumeMemo = map[string][]int{}
+	}
+	if fv.emittedHere(fv.assumeMemo, text) {
+		return
+	}
+	fv.emit(text)
 }
 
 func (fv *FnVC) note(s string) { fv.notes[s] = true }
@@ -211,7 +253,9 @@ func (fv *FnVC) oblige(id, kind string, props []string, guard, goal, clause stri
 		o.Pos = fmt.Sprintf("%s:%d", strings.TrimPrefix(p.Filename, fv.eng.repo+"/"), p.Line)
 	}
 	fv.obls = append(fv.obls, o)
-	fv.assume(guard, goal)
+	if goal != "true" {
+		fv.addLine(vline{text: "(assert " + implies(guard, goal) + ")", tag: fv.curTag, obl: o})
+	}
 	return o
 }
 
@@ -261,15 +305,29 @@ func (fv *FnVC) baseHeapObj(hi *heapInfo, epoch int) *Heap {
 			t = ite(me.conds[i], p.term, t)
 			hv = mergeHavocs(p.havocs, hv)
 		}
-		fv.lines = append(fv.lines, vline{fmt.Sprintf("(define-fun %s () (Array Loc %s) %s)", n, hi.sort, t), me.tag})
+		fv.addLine(vline{text: fmt.Sprintf("(define-fun %s () (Array Loc %s) %s)", n, hi.sort, t), tag: me.tag})
 		h = &Heap{term: n, info: hi, havocs: hv}
 	} else if pe := fv.privEpochs[epoch]; pe != nil {
-		fv.emitGlobal(fmt.Sprintf("(declare-const %s (Array Loc %s))", n, hi.sort))
+		fv.addLine(vline{text: fmt.Sprintf("(declare-const %s (Array Loc %s))", n, hi.sort), tag: pe.tag})
 		parent := fv.baseHeapObj(hi, pe.prev)
-		hvc := &havoc{sym: n, parent: parent, region: pe.region, done: map[string]bool{}}
-		h = &Heap{term: n, info: hi, havocs: []*havoc{hvc}}
+		reg := pe.region
+		ni := fv.notImmutable(hi.key, pe.alloc)
+		if ni != nil {
+			r0 := reg
+			reg = func(l string) string { return and(r0(l), ni(l)) }
+		}
+		if pe.onlyImmutable && ni == nil {
+			h = &Heap{term: n, info: hi}
+		} else {
+			hvc := &havoc{sym: n, parent: parent, region: reg, done: map[string]bool{}, relevant: pe.relevant(fv, hi.key)}
+			h = &Heap{term: n, info: hi, havocs: []*havoc{hvc}}
+		}
 	} else {
-		fv.emitGlobal(fmt.Sprintf("(declare-const %s (Array Loc %s))", n, hi.sort))
+		tg := -1
+		if t, ok := fv.epochTag[epoch]; ok {
+			tg = t
+		}
+		fv.addLine(vline{text: fmt.Sprintf("(declare-const %s (Array Loc %s))", n, hi.sort), tag: tg})
 		h = &Heap{term: n, info: hi}
 	}
 	if fv.baseCache == nil {
@@ -282,6 +340,11 @@ func (fv *FnVC) baseHeapObj(hi *heapInfo, epoch int) *Heap {
 type privEpoch struct {
 	prev   int
 	region func(string) string
+	alloc  string
+	onlyImmutable bool
+	tag    int
+	localOnly bool // the kept memory consists of non-escaping local cells only (no private root)
+	roots  []string
 }
 
 // mergedEpoch: the memory epoch after a join of paths with different epochs.
@@ -322,6 +385,13 @@ func (fv *FnVC) emittedHere(memo map[string][]int, k string) bool {
 func (fv *FnVC) instHavoc(hv *havoc, loc string) {
 	if hv.inst == nil {
 		hv.inst = map[string][]int{}
+	}
+	if hv.relevant != nil && !hv.relevant(loc) {
+		// vacuous instance; still descend so that older havocs are instantiated
+		if !fv.emittedHere(hv.inst, loc) {
+			fv.loadRaw(hv.parent, loc)
+		}
+		return
 	}
 	if fv.emittedHere(hv.inst, loc) {
 		return
@@ -389,7 +459,38 @@ func (fv *FnVC) storeRaw(st *State, key, srt, loc, val string) {
 
 // havocHeap replaces the part of heap key selected by region with unknown or
 // given contents.
+// notImmutable: l is not an immutable-after-construction field (of heap key)
+// of an object that already existed at allocation counter alloc.
+func (fv *FnVC) notImmutable(key, alloc string) func(string) string {
+	var fis []*FieldInv
+	for _, fi := range fv.eng.immutables {
+		if fi.LeafKey == key {
+			fis = append(fis, fi)
+		}
+	}
+	if len(fis) == 0 {
+		return nil
+	}
+	return func(l string) string {
+		var cs []string
+		for _, fi := range fis {
+			cs = append(cs, not(and("(isLField "+l+")", eq("(fidx "+l+")", fmt.Sprint(fi.Index)), eq("(ltype (fpar "+l+"))", fmt.Sprint(fi.TypeID)), "(< (root "+l+") "+alloc+")")))
+		}
+		return and(cs...)
+	}
+}
+
 func (fv *FnVC) havocHeap(st *State, key, srt string, region, content func(string) string) *havoc {
+	if content == nil {
+		if ni := fv.notImmutable(key, st.alloc); ni != nil {
+			r0 := region
+			if r0 == nil {
+				region = ni
+			} else {
+				region = func(l string) string { return and(r0(l), ni(l)) }
+			}
+		}
+	}
 	h := fv.heapOf(st, key, srt)
 	sym := fv.decl(h.info.name+"v", fv.arrSort(h.info))
 	hv := &havoc{sym: sym, parent: h, region: region, content: content, done: map[string]bool{}}
@@ -484,6 +585,15 @@ func (fv *FnVC) mergeStates(conds []string, sts []*State) *State {
 			}
 			out.tags[k] = v
 		}
+	}
+	var ds []string
+	for i, s := range sts {
+		if s.dirty != "" && s.dirty != "false" {
+			ds = append(ds, and(conds[i], s.dirty))
+		}
+	}
+	if len(ds) > 0 {
+		out.dirty = fv.def("dirty", "Bool", or(ds...))
 	}
 	// ghost call results: merged like values; a key missing on some path is dropped
 	for k := range sts[0].ghost {
@@ -810,4 +920,67 @@ func (fv *FnVC) assumePtrType(g string, v Val) {
 	}
 	id := fv.eng.tagOf(pt.Elem())
 	fv.assume(g, or(eq(v.T, "LNil"), eq("(ltype "+v.T+")", fmt.Sprint(id))))
+}
+
+// locBase strips field / element selectors from a location term.
+func locBase(loc string) string {
+	for {
+		if strings.HasPrefix(loc, "(LField ") || strings.HasPrefix(loc, "(LElem ") {
+			// first argument
+			i := strings.Index(loc, " ") + 1
+			if loc[i] != '(' {
+				j := strings.Index(loc[i:], " ")
+				loc = loc[i : i+j]
+				continue
+			}
+			d := 0
+			for j := i; j < len(loc); j++ {
+				if loc[j] == '(' {
+					d++
+				} else if loc[j] == ')' {
+					d--
+					if d == 0 {
+						loc = loc[i : j+1]
+						break
+					}
+				}
+			}
+			continue
+		}
+		return loc
+	}
+}
+
+// relevant: for a havoc that keeps only non-escaping local cells and
+// immutable fields, the frame instance at loc says something only if loc is
+// (syntactically) inside a local cell or may be an immutable field.
+func (pe *privEpoch) relevant(fv *FnVC, key string) func(string) bool {
+	if !pe.localOnly {
+		return nil
+	}
+	roots := map[string]bool{}
+	for _, r := range pe.roots {
+		roots[r] = true
+	}
+	var idxs []string
+	for _, fi := range fv.eng.immutables {
+		if fi.LeafKey == key {
+			idxs = append(idxs, fmt.Sprintf(" %d)", fi.Index))
+		}
+	}
+	return func(loc string) bool {
+		if roots[locBase(loc)] {
+			return true
+		}
+		if strings.HasPrefix(loc, "(LField ") {
+			for _, sfx := range idxs {
+				if strings.HasSuffix(loc, sfx) {
+					return true
+				}
+			}
+			return false
+		}
+		// named or computed location: cannot tell
+		return !strings.HasPrefix(loc, "(LElem ")
+	}
 }
